@@ -115,24 +115,24 @@ def run(ctx):
                   "pressing the reph key turns p into p with র্ inserted at one position and nothing else changed")
     # the reph routine with its private helpers (scan, mobility test) spliced in; the internal back-space stays a call
     from . import roles as _roles
-    bs_cands = {k for k, f in prog.fns.items() if (f.get("impl") or {}).get("self") == fx and (f.get("inputs") or [None, None])[1:] == ["usize"]}
-    rb = _roles.ib(prog, reph_fn, extra_stop=bs_cands)
+    rb = _roles.ib(prog, reph_fn)        # including the internal back-space helper, which may also be written in place
     inl = set(rb.fn.get("inlined") or [])
     # len = chars().count() of the buffer
     cnt = [(bb, t) for (bb, t) in rb.calls() if callee_name(t).endswith("::count")]
     skip = [(bb, t) for (bb, t) in rb.calls() if callee_name(t).endswith("::skip")]
-    bsp = [(bb, t) for (bb, t) in rb.calls() if callee_name(t) in prog.fns and (prog.fns[callee_name(t)].get("inputs") or [None, None])[1:] == ["usize"]
-           and (prog.fns[callee_name(t)].get("impl") or {}).get("self") == fx]
+    # the removal of the tail: the one truncate of the composition buffer
+    bsp = [(bb, t) for (bb, t) in rb.calls() if callee_name(t).endswith("String::truncate") and self_path(rb.expr_operand(t["args"][0])) == (buf,)]
     bs_fn = None
     ok_idiom, why = False, "internal back-space not identified"
     if len(cnt) != 1 or len(skip) != 1 or len(bsp) != 1:
-        r2.undecidable("shape", "expected one chars().count(), one skip(), one internal back-space in the reph routine (found %d/%d/%d)" % (len(cnt), len(skip), len(bsp)),
+        r2.undecidable("shape", "expected one chars().count(), one skip(), one truncate of the text in the reph routine (found %d/%d/%d)" % (len(cnt), len(skip), len(bsp)),
                        common.fn_line(prog, reph_fn))
     else:
         cbb, ct = cnt[0]
         sbb, st = skip[0]
         bbb, bt = bsp[0]
-        bs_fn = callee_name(bt)
+        bs_fn = None
+        ok_idiom, why, take_local = suffix_bytes_idiom(prog, rb, buf)
         len_src = peel_conv(rb.expr_operand(ct["args"][0]))
         len_on_buf = contains_call(len_src, lambda n: n.endswith("str>::chars")) is not None and any(self_path(x) == (buf,) for x in len_src.walk())
         len_local = ct["dest"]["l"]
@@ -153,7 +153,7 @@ def run(ctx):
                     r_ = operand_local(rb, s["rv"]["r"])
                     if l_ == len_local:
                         step_skip = r_
-        step_bs = operand_local(rb, bt["args"][1])
+        step_bs = take_local
         same_step = step_skip is not None and step_skip == step_bs
         # no buffer write between count and the back-space
         writes = [(f, op, bb2) for (f, op, bb2, w) in phonetic.field_writes(prog, reph_fn, mods, body=rb) if f[:1] == (buf,)]
@@ -214,12 +214,10 @@ def run(ctx):
             else:
                 r2.violation("append", "the not-moveable branch performs %s instead of appending র্" % [w[0] for w in ws], site_of(rb, nm))
         # the internal back-space is the suffix-bytes idiom
-        ib = prog.body(bs_fn)
-        ok_idiom, why = suffix_bytes_idiom(prog, ib, buf)
         if ok_idiom:
             r2.ok("backspace-n", "removes exactly the last n code points: truncate(len() − Σ len_utf8 over chars().rev().take(n))")
         else:
-            r2.violation("backspace-n", "the internal back-space does not remove exactly n code points: %s" % why, common.fn_line(prog, bs_fn))
+            r2.violation("backspace-n", "the internal back-space does not remove exactly n code points: %s" % why, site_of(rb, bbb))
     r2.floor(4, "tail, reinsert, append, backspace-n")
 
     # ---------------- R1 no panic on any text
@@ -238,7 +236,7 @@ def run(ctx):
                 r1.violation("%s@%s" % (n.split("::")[-1], short), "%s in the reph path can panic (e.g. on an empty text)" % n.split("::")[-1], site_of(b, bb))
             if n.endswith("String::truncate"):
                 n_ob += 1
-                if fk == bs_fn and ok_idiom:
+                if fk == reph_fn and ok_idiom:
                     r1.ok("truncate@%s" % short, "char-boundary and range by the suffix-bytes idiom")
                 else:
                     r1.violation("truncate@%s" % short, "String::truncate with an offset not shown to be a char boundary ≤ len", site_of(b, bb))
@@ -251,6 +249,10 @@ def run(ctx):
             key = "%s@%s#%d" % (kind, short, sum(1 for j in b.rblocks if j < i and b.blocks[j]["term"]["k"] == "assert" and b.blocks[j]["term"]["kind"] == kind))
             if kind == "Overflow:Add":
                 ok_, why_ = loop_counter(b, i) if fk == reph_fn else closure_sum(prog, b, i)
+                if not ok_ and fk == reph_fn:
+                    ok2_, why2_ = closure_sum(prog, b, i)          # n += c.len_utf8() written as a loop
+                    if ok2_:
+                        ok_, why_ = ok2_, why2_
                 if ok_:
                     r1.ok(key, why_)
                 else:
@@ -258,8 +260,8 @@ def run(ctx):
             elif kind == "Overflow:Sub":
                 if fk == reph_fn:
                     ok_, why_ = counted_sub(b, i, buf)
-                elif fk == bs_fn:
-                    ok_, why_ = (ok_idiom, "len() − Σ len_utf8 of a suffix of the same string" if ok_idiom else why)
+                    if not ok_ and _is_len_minus(b, i, buf):
+                        ok_, why_ = (ok_idiom, "len() − Σ len_utf8 of a suffix of the same string" if ok_idiom else why)
                 else:
                     ok_, why_ = False, "unknown subtraction"
                 if ok_:
@@ -280,7 +282,10 @@ def run(ctx):
     sets5, _pe5 = classes.class_sets(prog)
     by_key = {k: (name, cs) for name, (k, cs) in sets5.items()}
     heads5 = rb.loops()
-    scan = [(h, tl) for h, tl in heads5.items() if any(rb.blocks[x]["term"]["k"] == "assert" and rb.blocks[x]["term"]["kind"] == "Overflow:Add" for x in rb.loop_body(h, tl))]
+    def _counts_by_one(x):
+        return any(st_["k"] == "assign" and st_["rv"]["k"] == "binop" and st_["rv"]["op"] == "AddWithOverflow" and st_["rv"]["r"]["k"] == "const"
+                   and st_["rv"]["r"].get("int") == 1 for st_ in rb.blocks[x]["stmts"])
+    scan = [(h, tl) for h, tl in heads5.items() if any(_counts_by_one(x) for x in rb.loop_body(h, tl))]
     if len(scan) != 1:
         r5.undecidable("scan", "expected one counting loop in the reph routine, found %d" % len(scan), common.fn_line(prog, reph_fn))
     else:
@@ -326,6 +331,80 @@ def run(ctx):
     r5.floor(2, "two classes used by the mobility test")
     r1.table("obligations", n_ob)
     r1.floor(6, "4 counter increments, len − step, suffix-bytes (sum, subtraction, truncate)")
+
+
+def _loop_sum_form(ib, sub, buf):
+    """n_bytes accumulated by a loop: `let mut n = 0; for c in buf.chars().rev().take(k) { n += c.len_utf8(); }`.
+    Returns (ok, why, take local) or None when the subtrahend is not a loop accumulator at all."""
+    # the MIR statement of the subtraction
+    st = None
+    for (i, j, s_) in ib.stmts():
+        if s_["k"] == "assign" and s_["rv"]["k"] == "binop" and s_["rv"]["op"] in ("Sub", "SubWithOverflow"):
+            l_ = strip_refs(ib.expr_operand(s_["rv"]["l"]))
+            if l_.k == "call" and l_.a[0].endswith("String::len") and self_path(l_.a[1][0]) == (buf,):
+                st = s_
+    if st is None:
+        return None
+    acc = operand_local(ib, st["rv"]["r"])
+    if acc is None:
+        return None
+    defs = ib.defs.get(acc, [])
+    inits = [d for d in defs if d[2] == "assign" and d[3]["rv"]["k"] == "use" and d[3]["rv"]["op"].get("int") == 0]
+    others = [d for d in defs if d not in inits]
+    if len(inits) != 1 or not others:
+        return None
+    heads = ib.loops()
+    loop = None
+    for h, tails in heads.items():
+        body = ib.loop_body(h, tails)
+        if all(d[0] in body for d in others):
+            loop = (h, body)
+    if loop is None:
+        return False, "the byte count is accumulated outside a loop", None
+    h, body = loop
+    t = ib.blocks[h]["term"]
+    if not (t["k"] == "call" and callee_name(t).endswith("Iterator>::next") and "Take<std::iter::Rev<std::str::Chars" in t["args"][0]["place"]["ty"]):
+        return False, "the accumulating loop is not over chars().rev().take(n)", None
+    it = strip_refs(ib.expr_operand(t["args"][0]))
+    names = []
+    x = it
+    while x.k == "call":
+        names.append(x.a[0].split("::")[-1])
+        x = strip_refs(x.a[1][0])
+    if names[:4] != ["into_iter", "take", "rev", "chars"] and names[:3] != ["take", "rev", "chars"]:
+        return False, "iterator chain is %s, expected chars().rev().take(n)" % "·".join(reversed(names)), None
+    if not any(self_path(y) == (buf,) for y in it.walk()):
+        return False, "the loop does not iterate the composition buffer", None
+    take_local = None
+    for (bb2, t2) in ib.calls():
+        if callee_name(t2).endswith("Iterator::take") and "Rev<std::str::Chars" in t2["args"][0]["place"]["ty"] and ib.dominates(bb2, h):
+            take_local = operand_local(ib, t2["args"][1])
+    if take_local is None:
+        return False, "take() count not found", None
+    # every other definition is  acc = (acc + len_utf8(c)).0  once per iteration
+    n_add = 0
+    for (i, j, s_) in ib.stmts():
+        if i in body and s_["k"] == "assign" and s_["rv"]["k"] == "binop" and s_["rv"]["op"] in ("Add", "AddWithOverflow"):
+            l_, r_ = operand_local(ib, s_["rv"]["l"]), strip_refs(ib.expr_operand(s_["rv"]["r"]))
+            if l_ == acc:
+                n_add += 1
+                if not (r_.k == "call" and r_.a[0].endswith("len_utf8")):
+                    return False, "the loop adds %r, not len_utf8 of the character" % (r_,), None
+    if n_add != 1:
+        return False, "the loop adds to the byte count %d times per iteration" % n_add, None
+    inner = [hh for hh in heads if hh != h and hh in body]
+    if inner:
+        return False, "nested loop inside the accumulating loop", None
+    return True, "", take_local
+
+
+def _is_len_minus(b, abb, buf):
+    """The checked subtraction before assert block abb is `buffer.len() − x`."""
+    for st in b.blocks[abb]["stmts"]:
+        if st["k"] == "assign" and st["rv"]["k"] == "binop" and st["rv"]["op"] == "SubWithOverflow":
+            l = strip_refs(b.expr_operand(st["rv"]["l"]))
+            return l.k == "call" and l.a[0].endswith("String::len") and self_path(l.a[1][0]) == (buf,)
+    return False
 
 
 def loop_counter(b, abb):
@@ -434,24 +513,28 @@ def suffix_bytes_idiom(prog, ib, buf):
     """truncate(buf, buf.len() − fold(take(rev(chars(buf)), n), 0, |a, c| a + c.len_utf8()))"""
     tr = [(bb, t) for (bb, t) in ib.calls() if callee_name(t).endswith("String::truncate")]
     if len(tr) != 1:
-        return False, "expected one String::truncate"
+        return False, "expected one String::truncate", None
     bb, t = tr[0]
     if self_path(ib.expr_operand(t["args"][0])) != (buf,):
-        return False, "truncate is not applied to the composition buffer"
+        return False, "truncate is not applied to the composition buffer", None
     new_len = strip_refs(ib.expr_operand(t["args"][1]))
     sub = None
     for x in new_len.walk():
         if x.k == "bin" and x.a[0] in ("Sub", "SubWithOverflow"):
             sub = x
     if sub is None:
-        return False, "new length is not `len − n_bytes`"
+        return False, "new length is not `len − n_bytes`", None
     l, r = strip_refs(sub.a[1]), strip_refs(sub.a[2])
     if not (l.k == "call" and l.a[0].endswith("String::len") and self_path(l.a[1][0]) == (buf,)):
-        return False, "minuend is not buffer.len()"
+        return False, "minuend is not buffer.len()", None
+    loop_form = _loop_sum_form(ib, sub, buf) if r.k != "call" else None
+    if loop_form is not None:
+        ok_l, why_l, tl_ = loop_form
+        return (True, "", tl_) if ok_l else (False, why_l, None)
     is_fold = r.k == "call" and r.a[0].endswith("::fold")
     is_sum = r.k == "call" and r.a[0].endswith("Iterator::sum") and strip_refs(r.a[1][0]).k == "call" and strip_refs(r.a[1][0]).a[0].endswith("Iterator::map")
     if not (is_fold or is_sum):
-        return False, "subtrahend is %s, not a fold / sum over the removed characters' len_utf8" % (r.a[0] if r.k == "call" else r.k)
+        return False, "subtrahend is %s, not a fold / sum over the removed characters' len_utf8" % (r.a[0] if r.k == "call" else r.k), None
     mp = strip_refs(r.a[1][0]) if is_sum else None
     it = strip_refs(mp.a[1][0]) if is_sum else strip_refs(r.a[1][0])
     names = []
@@ -460,39 +543,43 @@ def suffix_bytes_idiom(prog, ib, buf):
         names.append(x.a[0].split("::")[-1])
         x = strip_refs(x.a[1][0])
     if names[:3] != ["take", "rev", "chars"]:
-        return False, "iterator chain is %s, expected chars().rev().take(n)" % "·".join(reversed(names))
+        return False, "iterator chain is %s, expected chars().rev().take(n)" % "·".join(reversed(names)), None
     if not any(self_path(y) == (buf,) for y in it.walk()):
-        return False, "the fold does not iterate the composition buffer"
-    take_n = strip_refs(strip_refs(it).a[1][1])
-    if not (take_n.k == "arg" and take_n.a[0] == 2):
-        return False, "take() does not use the step parameter"
+        return False, "the fold does not iterate the composition buffer", None
+    # how many characters are taken: the MIR local behind take()'s argument (compared with the scan's step by the caller)
+    take_local = None
+    for (bb2, t2) in ib.calls():
+        if callee_name(t2).endswith("Iterator::take") and "Rev<std::str::Chars" in t2["args"][0]["place"]["ty"]:
+            take_local = operand_local(ib, t2["args"][1])
+    if take_local is None:
+        return False, "take() count not found", None
     if is_sum:
         # Σ over map(f) with f = char::len_utf8 (by name, or a closure returning exactly len_utf8 of its argument)
         f = strip_refs(mp.a[1][1])
         if f.k == "const" and isinstance(f.a[0], tuple) and f.a[0][0] == "fn" and f.a[0][1].endswith("len_utf8"):
-            return True, ""
+            return True, "", take_local
         if f.k == "agg" and str(f.a[0]).startswith("closure:"):
             cb = prog.body(f.a[0][8:])
             ret = strip_refs(peel_conv(cb.expr_local(0)))
             if ret.k == "call" and ret.a[0].endswith("len_utf8") and strip_refs(ret.a[1][0]).k == "arg" and not [y for y in ret.walk() if y.k == "bin"]:
-                return True, ""
-        return False, "the summed map function is not char::len_utf8"
+                return True, "", take_local
+        return False, "the summed map function is not char::len_utf8", None
     init = strip_refs(r.a[1][1])
     if not is_const(init, "int", 0):
-        return False, "fold does not start at 0"
+        return False, "fold does not start at 0", None
     clo = strip_refs(r.a[1][2])
     if not (clo.k == "agg" and clo.a[0].startswith("closure:")):
-        return False, "fold function is not a local closure"
+        return False, "fold function is not a local closure", None
     cb = prog.body(clo.a[0][8:])
     ret = strip_refs(cb.expr_local(0))
     adds = [y for y in ret.walk() if y.k == "bin" and y.a[0] in ("Add", "AddWithOverflow")]
     if len(adds) != 1 or contains_call(ret, lambda n: n.endswith("len_utf8")) is None:
-        return False, "fold closure is %r, expected acc + c.len_utf8()" % (ret,)
+        return False, "fold closure is %r, expected acc + c.len_utf8()" % (ret,), None
     a_ = adds[0]
     ops = [strip_refs(a_.a[1]), strip_refs(a_.a[2])]
     if not any(o.k == "arg" and o.a[0] == 2 for o in ops):
-        return False, "fold closure does not add to the accumulator"
+        return False, "fold closure does not add to the accumulator", None
     other = [y for y in ret.walk() if y.k == "bin" and y.a[0] not in ("Add", "AddWithOverflow")]
     if other:
-        return False, "fold closure does more than acc + len_utf8"
-    return True, ""
+        return False, "fold closure does more than acc + len_utf8", None
+    return True, "", take_local
